@@ -259,8 +259,12 @@ class sequence_variables:
                 else:
                     half = count // 2
                     try:
-                        data['median-%s' %
-                             name] = (values[half] + values[half - 1]) // 2
+                        mid = values[half] + values[half - 1]
+                        if isinstance(mid, int):
+                            mid = mid // 2
+                        else:
+                            mid = mid / 2
+                        data['median-%s' % name] = mid
                     except Exception:
                         try:
                             data['median-%s' %
